@@ -27,11 +27,20 @@ NPROC = 14
 # ----------------------------------------------------------------------------------------------------------------------
 # workers (fresh processes, fork)
 
+CORE_REPL = ('', ' ', '\\\n ', ' # c\n', '\n', '# c\n')  # replacements used for "every gap" enumeration in the quick tier
+EXPLODED = 8  # layout id: harness.c11_offset.explode (every bracketed construct in multi-line form)
+
+
 def _source(prog, variant, seed):
     from corpus.programs import PROGRAMS
     from harness import c11_offset, layouts
+    if prog <= -100:
+        s = c11_offset.MULTILINE_SOURCES[-100 - prog]
+        return c11_offset.explode(s) if variant == EXPLODED else s
     if prog < 0:
         return c11_offset.EXTRA_SOURCES[-1 - prog]
+    if variant == EXPLODED:
+        return c11_offset.explode(PROGRAMS[prog])
     return layouts.variant(PROGRAMS[prog], variant, seed)
 
 
@@ -48,7 +57,9 @@ def _shard_v(args):
             continue
         rng = random.Random(seed)
         cands = H.all_candidates(S)
-        if ncand is not None:
+        if ncand == -1:  # every spot, core replacements
+            cands = [x for x in cands if x[2] in CORE_REPL]
+        elif ncand is not None:
             rng.shuffle(cands)
             # candidates outside the domain are skipped by the driver: draw until ncand have been carried out
             picked, k = [], 0
@@ -215,9 +226,19 @@ def _v_jobs(ctx, nsrc_variants, ncand, nwalk, wsteps):
             nc = ncand if (ncand is not None or variant in FULL_VARIANTS) else 200
             jobs.append((k * 1000, prog, variant, rng.randrange(1 << 30), nc, nwalk, wsteps))
     from harness import c11_offset
-    for e in range(len(c11_offset.EXTRA_SOURCES)):  # 300 splices (+ undo) each in quick, every gap in thorough
+    for e in range(len(c11_offset.EXTRA_SOURCES)):  # 200 splices (+ undo) each in quick, every gap in thorough
         k += 1
-        jobs.append((k * 1000, -1 - e, 0, rng.randrange(1 << 30), 300 if ctx.quick else None, 1, 10))
+        jobs.append((k * 1000, -1 - e, 0, rng.randrange(1 << 30), 200 if ctx.quick else None, 1, 10))
+    # the constructs the offset walk special-cases, in multi-line form: EVERY gap in every tier (core replacements in quick)
+    for e in range(len(c11_offset.MULTILINE_SOURCES)):
+        k += 1
+        jobs.append((k * 1000, -100 - e, 0, rng.randrange(1 << 30), -1 if ctx.quick else None, 1, 10))
+        k += 1
+        jobs.append((k * 1000, -100 - e, EXPLODED, rng.randrange(1 << 30), 100 if ctx.quick else None, 0, 0))
+    # the exploded layout of every corpus program
+    for prog in range(len(PROGRAMS)):
+        k += 1
+        jobs.append((k * 1000, prog, EXPLODED, rng.randrange(1 << 30), 6 if ctx.quick else 200, 0, 0))
     rng.shuffle(jobs)
     return jobs
 
@@ -227,7 +248,8 @@ def run(ctx):
                 'x every [p,q) inside every gap x replacements): OnText, LawBefore/After/Contains, ChangedVisited. '
                 'G: every OffsetGen instance with a Python rendering (sampled in quick) replayed through put_src(offset). '
                 'V: token gaps (A between stream tokens, B across comments/newlines, C whole lines between statements) of '
-                '40 corpus programs x 8 layouts x replacements, do/undo and random walks. '
+                '40 corpus programs x 8 layouts (+ exploded multi-line layout) + edge sources (every gap of the multi-line forms of '
+                'decorators / position-less nodes / interleaved fields) x replacements, do/undo and random walks. '
                 'distinct = distinct (kind of the node called on, gap type, insert/delete/replace, single/multi-line)')
     ctx.assumptions += [
         'projection (harness/proj.py), tokenize-based domain filter (same non-trivia token sequence) and str splice are trusted',
@@ -260,7 +282,7 @@ def run(ctx):
     # ---- V
     if 'V' in phases:
         if ctx.quick:
-            jobs = _v_jobs(ctx, 8, 18, 1, 8)
+            jobs = _v_jobs(ctx, 8, 14, 1, 8)
         else:
             jobs = _v_jobs(ctx, 8, None, 2, 25)
         per = max(1, len(jobs) // (NPROC * (1 if ctx.quick else 6)))
